@@ -185,6 +185,24 @@ func runC12(w *eng.W) {
 	if !q {
 		n = 8
 	}
+	// non-ASCII decimal digits (identifier-part characters, not digits of a literal) glued to literals
+	wide := append(append([]string{}, litAlpha...), "\u0662", "\uff11")
+	for l := 2; l <= n-2; l++ {
+		seqsSharded(w, len(wide), l, func(idx []int) {
+			if idx[0] > 2 {
+				return
+			}
+			has := false
+			for _, x := range idx {
+				if x >= len(litAlpha) {
+					has = true
+				}
+			}
+			if has {
+				emit("short-nonascii-digits", string(joinIdx(wide, idx, "")))
+			}
+		})
+	}
 	for l := 1; l <= n; l++ {
 		seqsSharded(w, len(litAlpha), l, func(idx []int) {
 			if idx[0] > 2 {
